@@ -1,27 +1,43 @@
 (* C13 — Compression and vector-to-MPS conversion obey their truncation error bounds.
-   Only statements, closed by [exact]/[apply]; proofs live in Proofs/CompressPartial.v and Proofs/Orth*.v.
+   Only statements, closed by [exact]/[apply]; proofs live in Proofs/Compress{Partial,SVD,Local,Sweep,Top,Error,Bool}.v and
+   Proofs/Orth*.v.
    Model: Model/Orthonormalize.v [mps_compress] (mirror of pytenet/mps.py MPS.compress, local_orthonormalize_left_svd /
    right_svd) on top of Model/BondOps.v [block_svd], [retained]; numpy.linalg.qr / svd, the unstable argsort and abs of a
    complex number are the oracle arguments [dqr], [dsvd], [pick], [cabs].
 
-   FULL INTENDED STATEMENT (only the parts marked PROVED below are theorems; the rest is validated numerically on every
-   generated input by harness/props/c13.py and the model is tied to the code by the replay of MPS.compress):
-     for every ordered field F, L >= 1, d >= 1, bond profile, charges, non-zero well-formed block-sparse MPS psi,
-     0 <= tol < 1, both modes, oracles meeting their contracts (dqr_ok + real diagonal, dsvd_ok, pick_ok, cabs z >= 0 with
-     cabs z ^2 = |z|^2) on the issued calls:  mps_compress tol mode psi = Some (psi', nrm, scale)  with
-       (a) nrm >= 0, nrm^2 = <psi|psi>                                                        PROVED  (C13_compress_nrm_partial)
-       (b) scale^2 = prod_i (1 - eps_i), eps_i <= tol the discarded relative weight at bond i   NOT PROVED (C12_retained_spec gives
-           eps_i <= tol per split; the centre-norm bookkeeping across sites is missing)
-       (c) hence 1 - L*tol <= (1-tol)^L <= scale^2 <= 1                                         algebra PROVED (C13_scale_bounds_partial:
-           0 <= eps_i <= tol <= 1  ==>  1 - L.tol <= prod (1 - eps_i) <= 1), conditional on (b)
-       (d) psi' normalised and canonical in the sweep direction, bond dimensions do not grow    NOT PROVED
-       (e) the first truncated bond keeps exactly the Schmidt values [retained] prescribes      NOT PROVED
-       (f) tol = 0  ==>  nrm * scale * amp psi' w = amp psi w                                   NOT PROVED
-       (g) || nrm*scale*psi' - psi ||^2 = nrm^2 (1 - scale^2)   (stretch)                        NOT PROVED
-       (h) MPS.from_vector(tol): relative error <= sqrt(L*tol)  (stretch; from_vector is not modelled)   NOT PROVED *)
+   Vocabulary (Proofs/CompressTop.v, CompressLocal.v, CompressError.v):
+     compress_args tol left p1   the arguments (tensor, charges behind, charges ahead) of the local truncation steps the sweep
+                                 actually performs on the orthonormalised state p1, in order (depends on the oracle answers)
+     step_mx left qd a           the matrix and charge vectors handed to split_matrix_svd by the step a
+     svd_call_ok / compress_ok   LAPACK's contract [dsvd_ok] (C12) on the block SVD calls of every step and [pick_ok] (C12) on its argsort call
+     svd_eps / compress_eps      eps_i = discarded relative weight [disc_weight S (retained pick S tol)] of step i (S its block spectrum)
+     abs_ok cabs t               cabs t >= 0 and (cabs t)^2 = |t|^2, required only for the value T the sweep ends with ([compress_T])
+     dist2 d al Bs As            sum over all words w of | al * amp Bs w - amp As w |^2
+
+   FULL INTENDED STATEMENT and what is proved:
+     for every ordered field F, L >= 1, d >= 1, bond profile (first/last bond 1, all bonds >= 1), charges, well-formed block-sparse
+     MPS psi (also the zero state: the preliminary orthonormalisation always returns a normalised state), 0 <= tol < 1,
+     oracles meeting their contracts on the issued calls:  mps_compress tol mode psi = Some (psi', nrm, scale)  with
+       (a) nrm >= 0, nrm^2 = <psi|psi>                                                       PROVED both modes (C13_compress_nrm_partial),
+       (b) scale >= 0, scale^2 = prod_i (1 - eps_i), L factors, 0 <= eps_i <= tol           PROVED mode 'left' (C13_compress_left_spec)
+       (c) 1 - L*tol <= scale^2 <= 1                                                         PROVED mode 'left' (C13_compress_left_error)
+       (d) psi' well formed, block sparse, every site a left isometry, <psi'|psi'> = 1,
+           new bond dimensions <= those after the preliminary orthonormalisation <= original  PROVED mode 'left' (C13_compress_left_spec)
+       (e) the first truncated bond keeps exactly the Schmidt values [retained] prescribes   NOT PROVED as a theorem about mps_compress
+           (C12_block_svd_spec gives s = S[retained pick S tol] for each local split; that the first call's S are the Schmidt
+            values of the cut follows from the right-canonical form; the connecting lemma is not written)
+       (f) tol = 0  ==>  scale = 1 and nrm * scale * amp psi' w = amp psi w for every word w   PROVED mode 'left' (C13_compress_left_spec)
+       (g) <psi'|psi> = nrm*scale and || nrm*scale*psi' - psi ||^2 = nrm^2 (1 - scale^2) <= nrm^2 * L * tol
+                                                                                             PROVED mode 'left' (C13_compress_left_spec / _error)
+       (b)-(g) for mode 'right'                                                              NOT PROVED (the local step and the sweep induction are
+           written against an orientation-free [local_spec]; the right SVD step needs its own instance and the mirror of
+           Proofs/OrthRight.v for sweeps with a transposed oracle; validated numerically by harness/props/c13.py)
+       (h) MPS.from_vector(tol): relative error <= sqrt(L*tol)  (from_vector is not modelled)   NOT PROVED
+     Square roots are avoided: all bounds are stated for scale^2 and the squared distance. *)
 From Coq Require Import ZArith QArith Qcanon List Bool Lia.
 From PT Require Import Base.Scalar Base.Field Base.BigSum Base.Mx Model.Tensor Model.BondOps Model.Orthonormalize.
-From PT Require Import Proofs.BondOpsSpec Proofs.OrthDefs Proofs.OrthSweep Proofs.OrthTop Proofs.OrthBool Proofs.CompressPartial.
+From PT Require Import Proofs.BondOpsSpec Proofs.BondOpsRetained Proofs.BondOpsSVD Proofs.OrthDefs Proofs.OrthSweep Proofs.OrthTop Proofs.OrthBool Proofs.CompressPartial.
+From PT Require Import Proofs.CompressLocal Proofs.CompressSweep Proofs.CompressTop Proofs.CompressError Proofs.CompressBool.
 Import ListNotations.
 Open Scope nat_scope.
 
@@ -47,6 +63,69 @@ Theorem C13_scale_bounds_partial : forall (F : ofield) (eps : list F) (tol : F),
 Proof. intros F eps tol. exact (scale_bounds F eps tol). Qed.
 Print Assumptions C13_scale_bounds_partial.
 
+(* (b),(d),(f),(g) for mode = 'left'.  For every well-formed block-sparse MPS with boundary bonds 1 and all bonds >= 1, every
+   0 <= tol < 1, QR oracle meeting [qr_call_ok] on the calls of the preliminary right-orthonormalisation, SVD / argsort oracles
+   meeting [compress_ok] on the steps of the truncation sweep and abs meeting [abs_ok] on the final value T:
+   the model returns (psi', nrm, scale); psi' has the same qd and length, is well formed and block sparse under its new bond
+   charges, boundary bonds 1, all bonds >= 1, D'_{i+1} <= min(d D'_i, D1_{i+1}) with D1 the dimensions after the preliminary
+   orthonormalisation, D'_i <= D_i (original), every site a left isometry, <psi'|psi'> = 1; nrm >= 0, nrm^2 = <psi|psi>;
+   scale >= 0 and scale^2 = prod over the L local truncations of (1 - eps_i) with 0 <= eps_i <= tol;
+   tol = 0 gives scale = 1 and amp psi w = nrm * scale * amp psi' w; and <psi'|psi> = nrm * scale. *)
+Theorem C13_compress_left_spec : forall (F : ofield) dqr dsvd pick cabs (p : mps (Cx F)) (d : nat) (tol : F),
+  1 <= d -> length (m_qd p) = d -> m_A p <> [] -> mps_ok p = true ->
+  length (hd [] (m_qD p)) = 1 -> length (last (m_qD p) []) = 1 ->
+  Forall (fun q => 1 <= length q) (m_qD p) ->
+  fle F (f0 F) tol -> flt F tol (f1 F) ->
+  Forall (qr_call_ok F dqr) (mps_orth_calls dqr false p) ->
+  (forall p1 n1, mps_orthonormalize dqr false p = Some (p1, n1) -> compress_ok dsvd pick tol true p1) ->
+  (forall t, compress_T dqr dsvd pick tol true p = Some t -> abs_ok cabs t) ->
+  exists p1 p' nrm sc,
+    mps_orthonormalize dqr false p = Some (p1, nrm) /\
+    mps_compress dqr dsvd pick cabs tol true p = Some (p', nrm, sc) /\
+    m_qd p' = m_qd p /\ length (m_A p') = length (m_A p) /\ mps_ok p' = true /\
+    length (hd [] (m_qD p')) = 1 /\ length (last (m_qD p') []) = 1 /\
+    Forall (fun q => 1 <= length q) (m_qD p') /\
+    bond_bound d (lens (m_qD p')) (lens (m_qD p1)) /\
+    Forall2 le (lens (m_qD p')) (lens (m_qD p)) /\
+    chain_liso (lens (m_qD p')) (m_A p') /\
+    norm2 d (m_A p') = k1 (Cx F) /\
+    fle F (f0 F) nrm /\ norm2 d (m_A p) = cof (fmul F nrm nrm) /\
+    fle F (f0 F) sc /\
+    length (compress_eps dsvd pick tol true p1) = length (m_A p) /\
+    (forall e, In e (compress_eps dsvd pick tol true p1) -> fle F (f0 F) e /\ fle F e tol) /\
+    fmul F sc sc = fprod (map (fun e => fsub F (f1 F) e) (compress_eps dsvd pick tol true p1)) /\
+    (tol = f0 F -> sc = f1 F /\ forall w, length w = length (m_A p) -> letters d w ->
+       amp (m_A p) w = kmul (Cx F) (kmul (Cx F) (cof nrm) (cof sc)) (amp (m_A p') w)) /\
+    suml (words d (length (m_A p))) (fun w => kmul (Cx F) (kconj (Cx F) (amp (m_A p') w)) (amp (m_A p) w)) = cof (fmul F nrm sc).
+Proof. intros F dqr dsvd pick cabs p d tol. exact (compress_left_spec F dqr dsvd pick cabs p d tol). Qed.
+Print Assumptions C13_compress_left_spec.
+
+(* (c),(g) for mode = 'left', same hypotheses: 1 - L tol <= scale^2 <= 1 (nsmul L tol = tol + ... + tol) and
+   || nrm*scale*psi' - psi ||^2 = nrm^2 (1 - scale^2) <= nrm^2 L tol. *)
+Theorem C13_compress_left_error : forall (F : ofield) dqr dsvd pick cabs (p : mps (Cx F)) (d : nat) (tol : F),
+  1 <= d -> length (m_qd p) = d -> m_A p <> [] -> mps_ok p = true ->
+  length (hd [] (m_qD p)) = 1 -> length (last (m_qD p) []) = 1 ->
+  Forall (fun q => 1 <= length q) (m_qD p) ->
+  fle F (f0 F) tol -> flt F tol (f1 F) ->
+  Forall (qr_call_ok F dqr) (mps_orth_calls dqr false p) ->
+  (forall p1 n1, mps_orthonormalize dqr false p = Some (p1, n1) -> compress_ok dsvd pick tol true p1) ->
+  (forall t, compress_T dqr dsvd pick tol true p = Some t -> abs_ok cabs t) ->
+  exists p' nrm sc,
+    mps_compress dqr dsvd pick cabs tol true p = Some (p', nrm, sc) /\
+    fle F (fsub F (f1 F) (nsmul (length (m_A p)) tol)) (fmul F sc sc) /\ fle F (fmul F sc sc) (f1 F) /\
+    dist2 d (cof (fmul F nrm sc)) (m_A p') (m_A p) = cof (fmul F (fmul F nrm nrm) (fsub F (f1 F) (fmul F sc sc))) /\
+    fle F (fmul F (fmul F nrm nrm) (fsub F (f1 F) (fmul F sc sc))) (fmul F (fmul F nrm nrm) (nsmul (length (m_A p)) tol)).
+Proof. intros F dqr dsvd pick cabs p d tol. exact (compress_left_error F dqr dsvd pick cabs p d tol). Qed.
+Print Assumptions C13_compress_left_error.
+
+(* the steps [compress_args] are exactly the steps whose block SVD calls the model lists in [compress_svd_calls] (both modes) *)
+Theorem C13_compress_calls : forall (F : ofield) dsvd pick (tol : F) (left : bool) (p1 : mps (Cx F)),
+  compress_svd_calls dsvd pick tol left p1 =
+  flat_map (fun a => block_svd_calls (fst (fst (step_mx left (m_qd p1) a))) (snd (fst (step_mx left (m_qd p1) a))) (snd (step_mx left (m_qd p1) a)))
+           (compress_args dsvd pick tol left p1).
+Proof. intros F dsvd pick tol left p1. exact (compress_svd_calls_args F dsvd pick tol left p1). Qed.
+Print Assumptions C13_compress_calls.
+
 (* Non-vacuity: product state L = 2, d = 2, tensors (3,4) (x) (3,4), mode = 'left', tol = 1/10; the QR table (two calls of the
    right orthonormalisation), the SVD table (column (3/5,4/5) = (3/5,4/5)^T . 1 . [[1]]), argsort answer [0] and abs = real part
    (the final T is 1) meet the contracts; the model returns nrm = 25 and scale = 1. *)
@@ -70,4 +149,24 @@ Example C13_nonvacuous :
   | Some (p', nrm, sc) => feqb QcF nrm (qq 25 1) && feqb QcF sc (qq 1 1) && mps_ok p' | None => false end = true.
 Proof.
   split; [vm_compute; reflexivity|]. split; [apply qr_call_okb_sound; vm_compute; reflexivity|]. vm_compute; reflexivity.
+Qed.
+(* the same instance meets every hypothesis of C13_compress_left_spec / _error (two truncation steps, both oracle contracts
+   and the abs contract hold on the issued calls) *)
+Example C13_left_nonvacuous :
+  1 <= 2 /\ length (m_qd ex_p) = 2 /\ m_A ex_p <> [] /\ mps_ok ex_p = true /\
+  length (hd [] (m_qD ex_p)) = 1 /\ length (last (m_qD ex_p) []) = 1 /\ Forall (fun q => 1 <= length q) (m_qD ex_p) /\
+  fle QcF (f0 QcF) (qq 1 10) /\ flt QcF (qq 1 10) (f1 QcF) /\
+  Forall (qr_call_ok QcF (qr_oracle ex_qtbl)) (mps_orth_calls (qr_oracle ex_qtbl) false ex_p) /\
+  (forall p1 n1, mps_orthonormalize (qr_oracle ex_qtbl) false ex_p = Some (p1, n1) ->
+     compress_ok (svd_oracle ex_stbl) ex_pick (qq 1 10) true p1) /\
+  (forall t, compress_T (qr_oracle ex_qtbl) (svd_oracle ex_stbl) ex_pick (qq 1 10) true ex_p = Some t -> abs_ok ex_abs t) /\
+  match mps_orthonormalize (qr_oracle ex_qtbl) false ex_p with
+  | Some (p1, _) => length (compress_args (svd_oracle ex_stbl) ex_pick (qq 1 10) true p1) | None => 0 end = 2.
+Proof.
+  split; [lia|]. split; [reflexivity|]. split; [discriminate|]. split; [vm_compute; reflexivity|].
+  split; [reflexivity|]. split; [reflexivity|]. split; [repeat constructor|].
+  split; [vm_compute; reflexivity|]. split; [vm_compute; reflexivity|].
+  split; [apply qr_call_okb_sound; vm_compute; reflexivity|].
+  split; [apply (compress_hyp_of_bool QcF (qr_oracle ex_qtbl) (svd_oracle ex_stbl) ex_pick (qq 1 10) true ex_p); vm_compute; reflexivity|].
+  split; [apply (abs_hyp_of_bool QcF (qr_oracle ex_qtbl) (svd_oracle ex_stbl) ex_pick ex_abs (qq 1 10) true ex_p); vm_compute; reflexivity|]. vm_compute; reflexivity.
 Qed.
